@@ -407,6 +407,7 @@ func runC01(c *Ctx) {
 			rep.Eval(fmt.Sprintf("verify/digest-with-%d-significant-bytes", len(e.Bytes())))
 		}
 		rep.Count("messages_whose_e_has_leading_zero_bytes", int64(found))
+		rep.Require("messages_whose_e_has_leading_zero_bytes", 1)
 	}
 
 	// ---- histories on one key with caller buffers edited in place between calls (run serially, nothing in between):
